@@ -1,6 +1,555 @@
-//! C21 — not implemented yet.
-use mc_core::Ctx;
+//! C21 — SBOR decoding is total, bounded and depth-consistent.
+//!
+//! Three real consumers — the value decoder (`VecDecoder::decode_payload::<Value>`), the streaming
+//! traverser (`VecTraverser` run to `End` / `DecodeError`, events re-assembled into a value) and, for
+//! well-formed payloads, the encoder (`VecEncoder` on the decoded value) — are run on every enumerated
+//! payload at every enumerated depth limit, under `catch_unwind` and inside an allocation-recording scope,
+//! and compared with each other and with the independent reference reader of `refsbor`:
+//!   * malformed payload  => decoder and traverser reject it at every limit;
+//!   * well-formed payload of depth d => all three accept at limits >= d, all three reject *for depth* at limits < d;
+//!   * accepted values spell the reference tree, the traverser's events spell the decoder's value, re-encoding is identical;
+//!   * no panic, no allocation request > 16 MiB (sum <= 256 MiB), the event stream ends.
+//! Spaces (x 3 flavours): (b) byte strings over the structural alphabets, (c) single-point mutations of tree
+//! encodings, (d) depth ladders (wrapper chains around every leaf kind) at limits 0..=7 and 256.
+use crate::alloc_guard::{self, AllocStats};
+use crate::flavour::*;
+use crate::refsbor::*;
+use crate::sink::VioSink;
+use crate::spaces::*;
+use mc_core::{gen, par_range, Ctx, Level, Local};
+use sbor::{DecodeError, EncodeError};
+use serde_json::{json, Map, Value};
+use std::cell::Cell;
+use std::sync::atomic::{AtomicU64, Ordering};
 
-pub fn run(_ctx: Ctx) -> ! {
-    mc_core::machinery_error("C21: not implemented")
+const GENEROUS: usize = 256;
+const LIMITS_WELLFORMED: [usize; 6] = [GENEROUS, 0, 1, 2, 3, 4];
+const LIMITS_MALFORMED: [usize; 4] = [GENEROUS, 0, 1, 2];
+const LIMITS_LADDER: [usize; 9] = [GENEROUS, 0, 1, 2, 3, 4, 5, 6, 7];
+
+#[derive(Clone, Copy, PartialEq, Eq, Debug)]
+enum Verdict {
+    Accept,
+    RejectDepth,
+    RejectOther,
+    Panic,
+}
+
+impl Verdict {
+    fn word(self) -> &'static str {
+        match self {
+            Verdict::Accept => "accepts",
+            Verdict::RejectDepth => "rejects-for-depth",
+            Verdict::RejectOther => "rejects-with-other-error",
+            Verdict::Panic => "panics",
+        }
+    }
+}
+
+struct Obs<T> {
+    verdict: Verdict,
+    value: Option<T>,
+    alloc: AllocStats,
+    detail: String,
+}
+
+// ---- the case being executed by this thread, for the allocator's emergency hook -----------------
+#[derive(Clone, Copy)]
+struct Cur {
+    buf: [u8; 96],
+    len: usize,
+    fl: u8,
+    limit: usize,
+    who: u8,
+}
+thread_local! {
+    static CUR: Cell<Cur> = const { Cell::new(Cur { buf: [0; 96], len: 0, fl: 0, limit: 0, who: 0 }) };
+}
+fn set_cur(bytes: &[u8], fl: Fl, limit: usize, who: u8) {
+    let mut c = Cur { buf: [0; 96], len: bytes.len(), fl: fl_tag(fl) as u8, limit, who };
+    let n = bytes.len().min(96);
+    c.buf[..n].copy_from_slice(&bytes[..n]);
+    CUR.with(|x| x.set(c));
+}
+const WHO: [&str; 3] = ["decoder", "traverser", "encoder"];
+const FLS: [Fl; 3] = [Fl::Basic, Fl::Scrypto, Fl::Manifest];
+
+/// Called by the allocator when the system allocator fails inside a guard scope: report the input as an
+/// over-allocation violation instead of letting the process abort.
+fn emergency(size: usize) -> ! {
+    let c = CUR.with(|x| x.get());
+    let root = std::env::var("VERIF_ROOT").unwrap_or_else(|_| ".".into());
+    let fl = FLS[(c.fl as usize).min(2)];
+    let who = WHO[(c.who as usize).min(2)];
+    let key = format!("{who}:over-allocation");
+    let shown = &c.buf[..c.len.min(96)];
+    let path = format!("{root}/replays/C21-{who}_over-allocation.json");
+    let body = json!({
+        "property": "C21", "key": key,
+        "what": format!("{} {who} requested {size} bytes (allocation failed) while reading a {}-byte payload at depth limit {}", fl.name(), c.len, c.limit),
+        "case": {"flavour": fl.name(), "space": "emergency", "bytes": mc_core::hex(shown), "limits": [c.limit], "truncated": c.len > 96},
+    });
+    let _ = std::fs::create_dir_all(format!("{root}/replays"));
+    let _ = std::fs::write(&path, serde_json::to_string_pretty(&body).unwrap());
+    println!("VIOLATION property=C21 replay={path} key={key} :: {} {who} requested {size} bytes for payload {} at depth limit {}", fl.name(), mc_core::hex(shown), c.limit);
+    std::process::exit(1)
+}
+
+fn fl_tag(fl: Fl) -> u64 {
+    match fl {
+        Fl::Basic => 0,
+        Fl::Scrypto => 1,
+        Fl::Manifest => 2,
+    }
+}
+
+fn run_guarded<T>(f: impl FnOnce() -> (Verdict, Option<T>, String)) -> Obs<T> {
+    match mc_core::catch(|| alloc_guard::guarded(f)) {
+        Ok(((verdict, value, detail), alloc)) => Obs { verdict, value, alloc, detail },
+        Err(p) => {
+            alloc_guard::disarm();
+            Obs { verdict: Verdict::Panic, value: None, alloc: AllocStats::default(), detail: format!("{p} at {}", mc_core::last_panic_location()) }
+        }
+    }
+}
+
+fn dec_verdict<V>(r: Result<V, DecodeError>) -> (Verdict, Option<V>, String) {
+    match r {
+        Ok(v) => (Verdict::Accept, Some(v), String::new()),
+        Err(DecodeError::MaxDepthExceeded(_)) => (Verdict::RejectDepth, None, "MaxDepthExceeded".into()),
+        Err(e) => (Verdict::RejectOther, None, crate::c20::decode_error_name(&e).into()),
+    }
+}
+
+fn enc_verdict(r: Result<Vec<u8>, EncodeError>) -> (Verdict, Option<Vec<u8>>, String) {
+    match r {
+        Ok(v) => (Verdict::Accept, Some(v), String::new()),
+        Err(EncodeError::MaxDepthExceeded(_)) => (Verdict::RejectDepth, None, "MaxDepthExceeded".into()),
+        Err(e) => (Verdict::RejectOther, None, format!("{e:?}")),
+    }
+}
+
+struct Shared {
+    sink: VioSink,
+    wellformed_b: AtomicU64,
+    wellformed_d: AtomicU64,
+    wellformed_c: AtomicU64,
+    mutations: AtomicU64,
+    max_single_alloc: AtomicU64,
+    max_total_alloc: AtomicU64,
+    max_events_per_byte_x100: AtomicU64,
+}
+
+fn case_json(fl: Fl, space: &str, bytes: &[u8], limit: usize) -> Value {
+    json!({"flavour": fl.name(), "space": space, "bytes": mc_core::hex(bytes), "limits": [limit]})
+}
+
+/// One payload at the given limits. Returns Some(depth) if the payload is well formed.
+fn check_payload<F: Flv>(bytes: &[u8], limits_wf: &[usize], limits_mf: &[usize], space: &'static str, l: &mut Local, sh: &Shared, verbose: bool) -> Option<usize> {
+    let fl = F::FL;
+    let rp = ref_parse_unlimited(bytes, fl);
+    if verbose {
+        println!("  reference: {:?}", rp.as_ref().map(|(t, d)| format!("depth {d}: {t:?}")));
+    }
+    // a real value for the encoder: decoded at the generous limit (first in every limit list)
+    let mut big: Option<F::V> = None;
+    let limits = if rp.is_ok() { limits_wf } else { limits_mf };
+    for &limit in limits {
+        l.eval();
+        let tag = fl_tag(fl) * 1000 + limit as u64;
+        let rec = |key: &str, what: String| sh.sink.record(key, bytes, tag, || (what, case_json(fl, space, bytes, limit)));
+
+        set_cur(bytes, fl, limit, 0);
+        let dec = run_guarded(|| dec_verdict(F::decode(bytes, limit)));
+        set_cur(bytes, fl, limit, 1);
+        let mut anomaly = None;
+        let mut events = 0usize;
+        let trav = run_guarded(|| {
+            let out = F::traverse(bytes, limit);
+            events = out.events;
+            anomaly = out.anomaly;
+            dec_verdict(out.result)
+        });
+        if limit == GENEROUS && rp.is_ok() {
+            big = dec.value.clone();
+        }
+        let enc = match (&rp, &big) {
+            (Ok(_), Some(v)) => {
+                set_cur(bytes, fl, limit, 2);
+                Some(run_guarded(|| enc_verdict(F::encode(v, limit))))
+            }
+            _ => None,
+        };
+        if verbose {
+            println!("  limit {limit}: decoder {} {} | traverser {} {} ({events} events) | encoder {}", dec.verdict.word(), dec.detail, trav.verdict.word(), trav.detail, enc.as_ref().map(|e| format!("{} {}", e.verdict.word(), e.detail)).unwrap_or("n/a".into()));
+        }
+
+        // ---- totality and boundedness
+        sh.max_events_per_byte_x100.fetch_max((events as u64 * 100) / (bytes.len().max(1) as u64), Ordering::Relaxed);
+        if let Some(a) = anomaly {
+            rec("traverser:malformed-event-stream", format!("{} traverser at limit {limit} on {}: {a}", fl.name(), mc_core::hex(bytes)));
+        }
+        let allocs: [(&str, Option<AllocStats>, Verdict, &str); 3] = [
+            ("decoder", Some(dec.alloc), dec.verdict, &dec.detail),
+            ("traverser", Some(trav.alloc), trav.verdict, &trav.detail),
+            ("encoder", enc.as_ref().map(|e| e.alloc), enc.as_ref().map(|e| e.verdict).unwrap_or(Verdict::Accept), enc.as_ref().map(|e| e.detail.as_str()).unwrap_or("")),
+        ];
+        for (who, a, verdict, detail) in allocs {
+            if verdict == Verdict::Panic {
+                rec(&format!("{who}:panics"), format!("{} {who} panics at depth limit {limit} on {} ({}-byte payload): {detail}", fl.name(), mc_core::hex(bytes), bytes.len()));
+            }
+            if let Some(a) = a {
+                sh.max_single_alloc.fetch_max(a.max_single as u64, Ordering::Relaxed);
+                sh.max_total_alloc.fetch_max(a.total as u64, Ordering::Relaxed);
+                if a.max_single > alloc_guard::MAX_SINGLE_ALLOWED || a.total > alloc_guard::MAX_TOTAL_ALLOWED {
+                    rec(
+                        &format!("{who}:over-allocation"),
+                        format!("{} {who} at depth limit {limit} on the {}-byte payload {}: largest single request {} bytes, sum of requests {} bytes", fl.name(), bytes.len(), mc_core::hex(bytes), a.max_single, a.total),
+                    );
+                }
+            }
+        }
+
+        // ---- agreement
+        match &rp {
+            Err(reason) => {
+                for (who, v) in [("decoder", dec.verdict), ("traverser", trav.verdict)] {
+                    if v == Verdict::Accept {
+                        rec(&format!("{who}:accepts-malformed:{}", reason.label()), format!("{} {who} at depth limit {limit} accepts {}; the wire format rejects it ({})", fl.name(), mc_core::hex(bytes), reason.label()));
+                    }
+                }
+                if dec.verdict != Verdict::Panic && trav.verdict != Verdict::Panic && dec.verdict != Verdict::Accept && trav.verdict != Verdict::Accept {
+                    l.class(malformed_class(*reason));
+                    if dec.verdict != trav.verdict {
+                        l.info("malformed payload: decoder and traverser both reject but one names depth, the other another defect (order of checks; outside the statement)");
+                    }
+                }
+            }
+            Ok((tree, d)) => {
+                let expected = if *d <= limit { Verdict::Accept } else { Verdict::RejectDepth };
+                let situation = if *d <= limit { "within-limit" } else { "deeper-than-limit" };
+                let ev = enc.as_ref().map(|e| e.verdict);
+                let known_o5 = limit == 0 && *d == 1 && dec.verdict == Verdict::RejectDepth && trav.verdict == Verdict::Accept && ev.map(|v| v == Verdict::RejectDepth).unwrap_or(true);
+                if known_o5 {
+                    sh.sink.record("max_depth=0:root-without-children", bytes, tag, || {
+                        (
+                            format!("at depth limit 0 the {} value decoder and encoder reject the childless root value {} for depth, the traverser accepts it", fl.name(), mc_core::hex(bytes)),
+                            case_json(fl, space, bytes, limit),
+                        )
+                    });
+                    l.class("wellformed:limit-0-childless-root(decoder+encoder reject, traverser accepts)");
+                } else {
+                    let mut all_ok = true;
+                    let parties: [(&str, Option<Verdict>); 3] = [("decoder", Some(dec.verdict)), ("traverser", Some(trav.verdict)), ("encoder", ev)];
+                    for (who, v) in parties {
+                        let Some(v) = v else {
+                            if who == "encoder" && dec.verdict != Verdict::Panic {
+                                // no value to encode: the generous decode failed, which is itself reported at the generous limit
+                            }
+                            continue;
+                        };
+                        if v != expected && v != Verdict::Panic {
+                            all_ok = false;
+                            rec(
+                                &format!("{who}:{}:{situation}", v.word()),
+                                format!(
+                                    "{} {who} {} the well-formed payload {} (value depth {d}) at depth limit {limit}; decoder {}, traverser {}, encoder {}",
+                                    fl.name(),
+                                    v.word(),
+                                    mc_core::hex(bytes),
+                                    dec.verdict.word(),
+                                    trav.verdict.word(),
+                                    ev.map(|x| x.word()).unwrap_or("n/a")
+                                ),
+                            );
+                        }
+                        if v == Verdict::Panic {
+                            all_ok = false;
+                        }
+                    }
+                    if all_ok {
+                        l.class(if expected == Verdict::Accept { "wellformed:accepted-by-all" } else { "wellformed:depth-rejected-by-all" });
+                    }
+                }
+                // accepted values spell the same tree
+                if let Some(v) = &dec.value {
+                    if !F::matches_ref(v, tree) {
+                        rec("decoder:value-differs-from-wire-format", format!("{} payload {} decodes to {v:?}, the wire format says {tree:?}", fl.name(), mc_core::hex(bytes)));
+                    }
+                }
+                if let Some(tv) = &trav.value {
+                    if !F::matches_ref(tv, tree) {
+                        rec("traverser:events-spell-another-tree", format!("{} traverser events on {} spell {tv:?}, the wire format says {tree:?}", fl.name(), mc_core::hex(bytes)));
+                    }
+                    if let Some(v) = &dec.value {
+                        if v != tv {
+                            rec("traverser:events-differ-from-decoded-value", format!("{} traverser events on {} spell {tv:?}, the decoder returns {v:?}", fl.name(), mc_core::hex(bytes)));
+                        }
+                    }
+                }
+                if let Some(e) = &enc {
+                    if let Some(out) = &e.value {
+                        if out != bytes {
+                            rec("encoder:reencoding-differs", format!("{} payload {} re-encodes to {} at depth limit {limit}", fl.name(), mc_core::hex(bytes), mc_core::hex(out)));
+                        }
+                    }
+                }
+                if limit == GENEROUS {
+                    l.sample(|| json!({"space": space, "flavour": fl.name(), "bytes": mc_core::hex(&bytes[..bytes.len().min(48)]), "value_depth": d, "outcome": "all three consumers agree with the reference at every limit tried"}));
+                }
+            }
+        }
+    }
+    rp.ok().map(|(_, d)| d)
+}
+
+fn malformed_class(e: RefErr) -> &'static str {
+    match e {
+        RefErr::Depth => "malformed:rejected-by-both:depth",
+        RefErr::Empty => "malformed:rejected-by-both:empty",
+        RefErr::BadPrefix => "malformed:rejected-by-both:bad-prefix",
+        RefErr::UnknownKind => "malformed:rejected-by-both:unknown-kind",
+        RefErr::Underflow => "malformed:rejected-by-both:underflow",
+        RefErr::SizeNonCanonical => "malformed:rejected-by-both:size-non-canonical",
+        RefErr::SizeTooLong => "malformed:rejected-by-both:size-too-long",
+        RefErr::BadBool => "malformed:rejected-by-both:bad-bool",
+        RefErr::BadUtf8 => "malformed:rejected-by-both:bad-utf8",
+        RefErr::BadCustom => "malformed:rejected-by-both:bad-custom",
+        RefErr::TrailingBytes => "malformed:rejected-by-both:trailing-bytes",
+    }
+}
+
+struct Counts {
+    strings: u64,
+    bases: u64,
+    ladders: u64,
+}
+
+fn run_flavour<F: Flv>(ctx: &Ctx, sh: &Shared, cov: &mut Map<String, Value>) -> Counts {
+    let fl = F::FL;
+    let t0 = ctx.elapsed_s();
+
+    // ---- (b) byte strings
+    let lb = ctx.pick(5u32, 6u32);
+    let n_full = gen::count_upto(16, 3);
+    let n_body = gen::count_upto(16, lb);
+    par_range(ctx, n_full, 256, |i, l| {
+        let mut buf = Vec::with_capacity(8);
+        gen::nth_string(&ALPHABET_FULL, i, &mut buf);
+        if check_payload::<F>(&buf, &LIMITS_WELLFORMED, &LIMITS_MALFORMED, "b", l, sh, false).is_some() {
+            sh.wellformed_b.fetch_add(1, Ordering::Relaxed);
+        }
+    });
+    par_range(ctx, n_body, 4096, |i, l| {
+        let mut body = Vec::with_capacity(8);
+        gen::nth_string(&ALPHABET_BODY, i, &mut body);
+        let mut buf = Vec::with_capacity(9);
+        buf.push(fl.prefix());
+        buf.extend_from_slice(&body);
+        if check_payload::<F>(&buf, &LIMITS_WELLFORMED, &LIMITS_MALFORMED, "b", l, sh, false).is_some() {
+            sh.wellformed_b.fetch_add(1, Ordering::Relaxed);
+        }
+    });
+    // huge declared sizes with no data: every container / string / byte-array header followed by FF FF FF 7F and by nothing
+    let mut huge = 0u64;
+    {
+        let mut l = Local::new();
+        let mut heads: Vec<Vec<u8>> = vec![vec![K_TUPLE], vec![K_ENUM, 0], vec![K_STRING], vec![K_MAP, K_U8, K_U8], vec![K_MAP, K_TUPLE, K_TUPLE]];
+        for k in fl.all_kinds() {
+            heads.push(vec![K_ARRAY, k]);
+        }
+        for k in fl.custom_kinds() {
+            heads.push(vec![*k, 0]);
+            heads.push(vec![*k, 2]);
+        }
+        for h in &heads {
+            for size in [&[0xffu8, 0xff, 0xff, 0x7f][..], &[0xff, 0xff, 0x7f], &[0xff, 0x7f], &[0x80, 0x80, 0x80, 0x01], &[0xff, 0xff, 0xff, 0xff, 0x0f]] {
+                for tail in [&[][..], &[0x00], &[0x21, 0x00]] {
+                    let mut buf = vec![fl.prefix()];
+                    buf.extend_from_slice(h);
+                    buf.extend_from_slice(size);
+                    buf.extend_from_slice(tail);
+                    // also nested one level down, where the pre-allocation happens inside a child
+                    let mut nested = vec![fl.prefix(), K_TUPLE, 1];
+                    nested.extend_from_slice(&buf[1..]);
+                    check_payload::<F>(&buf, &LIMITS_WELLFORMED, &LIMITS_MALFORMED, "b-huge-sizes", &mut l, sh, false);
+                    check_payload::<F>(&nested, &LIMITS_WELLFORMED, &LIMITS_MALFORMED, "b-huge-sizes", &mut l, sh, false);
+                    huge += 2;
+                }
+            }
+        }
+        ctx.merge(l);
+    }
+    let t_b = ctx.elapsed_s();
+
+    // ---- (c) single-point mutations of tree encodings
+    let space = tree_space(fl, !ctx.quick());
+    let alphabet: &[u8] = if ctx.quick() { &MUT_ALPHABET_QUICK } else { &gen::ALL_BYTES };
+    // quick: bases = S1 and S3 (depth 1 and depth 3); thorough: S1, S2 and S3 with the 12-symbol alphabet on S2/S3 and all 256 values on S1
+    let n = space.len() as u64;
+    let s1 = space.s1.len();
+    let s12 = space.s1.len() + space.s2.len();
+    let quick = ctx.quick();
+    let bases = AtomicU64::new(0);
+    par_range(ctx, n, 16, |i, l| {
+        let i = i as usize;
+        if quick && i >= s1 && i < s12 {
+            return;
+        }
+        let enc = ref_encode(space.get(i), fl);
+        if enc.len() > 40 {
+            l.info("encoding longer than 40 bytes: not mutated");
+            return;
+        }
+        bases.fetch_add(1, Ordering::Relaxed);
+        let alpha: &[u8] = if i < s1 { alphabet } else { &MUT_ALPHABET_QUICK };
+        let mut muts = 0u64;
+        let mut wf = 0u64;
+        // the unmutated encoding itself
+        check_payload::<F>(&enc, &LIMITS_WELLFORMED, &LIMITS_MALFORMED, "c-base", l, sh, false);
+        gen::mutations(&enc, alpha, |m| {
+            muts += 1;
+            if check_payload::<F>(m, &LIMITS_WELLFORMED, &LIMITS_MALFORMED, "c", l, sh, false).is_some() {
+                wf += 1;
+            }
+        });
+        sh.mutations.fetch_add(muts, Ordering::Relaxed);
+        sh.wellformed_c.fetch_add(wf, Ordering::Relaxed);
+    });
+    let tree_counts = (space.s1.len(), space.s2.len(), space.s3.len());
+    drop(space);
+    let t_c = ctx.elapsed_s();
+
+    // ---- (d) depth ladders
+    let max_chain = ctx.pick(5usize, 6usize);
+    let leaves = ladder_leaves(fl);
+    let chains = chain_count(max_chain);
+    let n_ladders = chains * leaves.len() as u64;
+    par_range(ctx, n_ladders, 64, |i, l| {
+        let leaf = &leaves[(i % leaves.len() as u64) as usize];
+        let mut chain = Vec::with_capacity(8);
+        nth_chain(i / leaves.len() as u64, &mut chain);
+        let tree = build_ladder(&chain, leaf);
+        let bytes = ref_encode(&tree, fl);
+        match check_payload::<F>(&bytes, &LIMITS_LADDER, &LIMITS_LADDER, "d", l, sh, false) {
+            Some(d) if d == chain.len() + leaf.depth() => {
+                sh.wellformed_d.fetch_add(1, Ordering::Relaxed);
+            }
+            other => mc_core::machinery_error(&format!("reference disagrees with itself on ladder {chain:?} around {leaf:?}: {other:?}")),
+        }
+    });
+    let t_d = ctx.elapsed_s();
+
+    cov.insert(
+        format!("space_{}", fl.name()),
+        json!({
+            "byte_strings": n_full + n_body,
+            "huge_size_payloads": huge,
+            "tree_space(S1,S2,S3)": [tree_counts.0, tree_counts.1, tree_counts.2],
+            "mutation_bases(<=40 bytes)": bases.load(Ordering::Relaxed),
+            "ladder_chains(length 1..=max)": chains,
+            "ladder_max_chain": max_chain,
+            "ladder_leaves": leaves.len(),
+            "ladder_payloads": n_ladders,
+            "seconds(b, c, d)": [t_b - t0, t_c - t_b, t_d - t_c],
+        }),
+    );
+    Counts { strings: n_full + n_body + huge, bases: bases.load(Ordering::Relaxed), ladders: n_ladders }
+}
+
+fn new_shared() -> Shared {
+    Shared {
+        sink: VioSink::new(),
+        wellformed_b: AtomicU64::new(0),
+        wellformed_c: AtomicU64::new(0),
+        wellformed_d: AtomicU64::new(0),
+        mutations: AtomicU64::new(0),
+        max_single_alloc: AtomicU64::new(0),
+        max_total_alloc: AtomicU64::new(0),
+        max_events_per_byte_x100: AtomicU64::new(0),
+    }
+}
+
+pub fn run(ctx: Ctx) -> ! {
+    alloc_guard::set_emergency_hook(emergency);
+    if let Some(case) = ctx.read_replay_case() {
+        replay(ctx, case);
+    }
+    let sh = new_shared();
+    let mut cov = Map::new();
+    let c0 = run_flavour::<Basic>(&ctx, &sh, &mut cov);
+    let c1 = run_flavour::<Scrypto>(&ctx, &sh, &mut cov);
+    let c2 = run_flavour::<Manifest>(&ctx, &sh, &mut cov);
+
+    let wf_b = sh.wellformed_b.load(Ordering::Relaxed);
+    let wf_d = sh.wellformed_d.load(Ordering::Relaxed);
+    cov.insert("byte_strings".into(), json!(c0.strings + c1.strings + c2.strings));
+    cov.insert("byte_strings_wellformed".into(), json!(wf_b));
+    cov.insert("mutation_bases".into(), json!(c0.bases + c1.bases + c2.bases));
+    cov.insert("mutations".into(), json!(sh.mutations.load(Ordering::Relaxed)));
+    cov.insert("mutations_wellformed".into(), json!(sh.wellformed_c.load(Ordering::Relaxed)));
+    cov.insert("ladder_payloads".into(), json!(c0.ladders + c1.ladders + c2.ladders));
+    cov.insert("depth_limits_wellformed".into(), json!(LIMITS_WELLFORMED));
+    cov.insert("depth_limits_malformed".into(), json!(LIMITS_MALFORMED));
+    cov.insert("depth_limits_ladders".into(), json!(LIMITS_LADDER));
+    cov.insert("largest_single_allocation_request_bytes".into(), json!(sh.max_single_alloc.load(Ordering::Relaxed)));
+    cov.insert("largest_sum_of_allocation_requests_bytes".into(), json!(sh.max_total_alloc.load(Ordering::Relaxed)));
+    cov.insert("max_traverser_events_per_input_byte".into(), json!(sh.max_events_per_byte_x100.load(Ordering::Relaxed) as f64 / 100.0));
+    cov.insert("ladder_wrappers".into(), json!(WRAPPER_NAMES));
+    let quick = ctx.quick();
+    sh.sink.flush(&ctx);
+    let rule = format!(
+        "x3 flavours; every payload is given to the real decoder, traverser and (if well formed) encoder at each listed depth limit (an evaluation = one payload at one limit). \
+         (b) every byte string of length <= 3 over {{5B 5C 4D 00 01 02 07 0C 20 21 22 23 80 C0 FF 83}}, the flavour prefix + every string of length <= {} over \
+         {{00 01 02 03 07 0C 20 21 22 23 41 80 83 87 C0 FF}}, and every container/string/custom header followed by 5 huge size forms x 3 tails (plain and nested in a tuple); \
+         (c) every single-point mutation of the tree encodings <= 40 bytes ({}); \
+         (d) every chain of 1..={} wrappers out of 7 around one leaf of every kind, the four empty containers and a byte array, at limits 0..=7 and 256. \
+         non-trivial = distinct well-formed (b) strings + distinct ladder payloads (each checked at all its limits)",
+        if quick { 5 } else { 6 },
+        if quick { "bases S1 and S3(narrow core), 12 structural byte values" } else { "bases S1 with all 256 byte values, S2 and S3(wide core) with the 12 structural byte values" },
+        if quick { 5 } else { 6 },
+    );
+    ctx.finish(
+        Level::Exploration,
+        &rule,
+        wf_b + wf_d,
+        true,
+        cov,
+        &[
+            "a payload is a 'value' for the depth clause iff the reference reader finds it well formed; its depth counts a leaf or an empty container as 1",
+            "for malformed payloads only accept / reject is compared between decoder and traverser (which defect is named first is outside the statement; counted as informational)",
+            "over-allocation = one allocation request > 16 MiB or requests summing to > 256 MiB during one consumer call, measured by the harness' counting global allocator",
+            "the encoder is exercised on the value the real decoder returns at depth limit 256",
+            "RawValue / typed codecs are not among the three parties and are not exercised here",
+        ],
+    )
+}
+
+fn replay(ctx: Ctx, case: Value) -> ! {
+    let fl = case.get("flavour").and_then(|x| x.as_str()).and_then(Fl::from_name).unwrap_or_else(|| mc_core::machinery_error("replay: no flavour"));
+    let bytes = mc_core::unhex(case.get("bytes").and_then(|x| x.as_str()).unwrap_or(""));
+    let mut limits: Vec<usize> = vec![GENEROUS];
+    if let Some(a) = case.get("limits").and_then(|x| x.as_array()) {
+        for x in a {
+            if let Some(n) = x.as_u64() {
+                if n as usize != GENEROUS {
+                    limits.push(n as usize);
+                }
+            }
+        }
+    }
+    println!("replay C21: flavour={} bytes={} limits={limits:?}", fl.name(), mc_core::hex(&bytes));
+    let sh = new_shared();
+    let mut l = Local::new();
+    match fl {
+        Fl::Basic => check_payload::<Basic>(&bytes, &limits, &limits, "replay", &mut l, &sh, true),
+        Fl::Scrypto => check_payload::<Scrypto>(&bytes, &limits, &limits, "replay", &mut l, &sh, true),
+        Fl::Manifest => check_payload::<Manifest>(&bytes, &limits, &limits, "replay", &mut l, &sh, true),
+    };
+    ctx.merge(l);
+    if sh.sink.is_empty() {
+        println!("replay: no violation on this input");
+    }
+    sh.sink.flush(&ctx);
+    ctx.finish(Level::Exploration, "replay of one case", 1, false, Map::new(), &[])
 }
